@@ -2,6 +2,7 @@ import CoapVerif.Lemmas.Block
 import CoapVerif.Lemmas.BlockRecv
 import CoapVerif.Lemmas.BlockCrcv
 import CoapVerif.Lemmas.BlockCrcvHostile
+import CoapVerif.Lemmas.BlockSrcvHostile
 import CoapVerif.Lemmas.BlockXmit
 import CoapVerif.Lemmas.BlockRtag
 import CoapVerif.Lemmas.BlockNet
@@ -178,6 +179,85 @@ example : (srcvStep 4 0 0 none 0 1 0 (List.replicate 16 7) none).2 = SrcvOut.con
 set_option maxRecDepth 8000 in
 /-- early size reduction (fix 0d17941): a 64-byte first block is recorded as 2 blocks of 32 -/
 example : ((srcvStep 4 0 1 none 0 1 2 (List.replicate 64 7) none).1.map (·.recv)) = some [(0, 1)] := by decide
+
+
+/-- HOSTILE CLIENT, server side, single-body mode, no hypothesis on the requests beyond what `coap_get_block_b` guarantees
+(`block_opt_bounds`: NUM < 2^20, SZX ≤ 6): for EVERY sequence of Block1 requests `ds` — any NUM, More bit, SZX (changing in
+the middle of the transfer in either direction), Size1 absent / too small / too large / anything up to 2^32-1 and beyond,
+any payload length (empty, short, oversized), any order, duplicates, blocks far beyond the end, any server block-size
+limit — whenever the `i`-th request makes `coap_handle_request_put_block` hand a body `(b, l)` to the request handler,
+`l` bytes are really there and EVERY one of them is a byte that one of the requests received so far (`ds.take (i+1)`)
+carried for exactly that offset (`SentAt1`).  No never-written byte of the reassembly buffer (`junk`) is delivered.
+Invariant `HSInv` by induction over the run; needs the fixes 11109ea (a block in a SMALLER size than the tracked one:
+the ranges are rescaled instead of mixing units — `HSInv_rescale`), cb35487 (a payload that is not a multiple of the
+block size must end at or beyond the total known, and nothing may reach beyond the total once the block without More
+has been seen: `HSFull` holds until then and the total is frozen afterwards), 8abfc44 (the block count is not truncated
+to 32 bits) and 0b3fb08.  Before them: `srcv2 0 256 9 256 0.1.3,1.0.0,1.0.3`, `srcv 0 32 189 32 0:1,1:0:4`,
+`srcv 0 40 1 4294967295 0:1,1:0:16` handed 128 / 12 / 4294967263 never-written bytes to the handler. -/
+theorem block1_hostile_no_unwritten_bytes (cap : Nat) (junk : UInt8) (maxBlk : Nat) (ds : List Dgram)
+    (hds : ∀ d, d ∈ ds → d.num < 2 ^ 20 ∧ d.szx ≤ 6) (i : Nat) (b : Bytes) (l : Nat)
+    (h : (runSrcv cap junk maxBlk none ds)[i]? = some (SrcvOut.deliver b l)) :
+    l ≤ b.length ∧ ∀ o, o < l → ∃ v, b[o]? = some v ∧ SentIn1 (ds.take (i + 1)) o v := by
+  have := runSrcv_hostile cap junk maxBlk ds none [] (by intro s hs; cases hs) hds i b l h
+  simpa using this
+
+/-- … so if every payload the client ever sends is cut from ONE byte string `B` at the offset its Block1 option names
+(whatever SZX on each request, any More bit, any Size1, payloads shorter than the block), the body handed to the
+request handler is a prefix of `B`: the oracle of the T2 ops `srcv` / `srcv2`. -/
+theorem block1_hostile_prefix_of_body (cap : Nat) (junk : UInt8) (maxBlk : Nat) (ds : List Dgram) (B : Bytes)
+    (hds : ∀ d, d ∈ ds → d.num < 2 ^ 20 ∧ d.szx ≤ 6)
+    (hB : ∀ d, d ∈ ds → ∀ o v, SentAt1 d o v → B[o]? = some v) (i : Nat) (b : Bytes) (l : Nat)
+    (h : (runSrcv cap junk maxBlk none ds)[i]? = some (SrcvOut.deliver b l)) :
+    l ≤ B.length ∧ b.take l = B.take l := by
+  obtain ⟨h1, h2⟩ := block1_hostile_no_unwritten_bytes cap junk maxBlk ds hds i b l h
+  have hbyte : ∀ o, o < l → b[o]? = B[o]? := by
+    intro o ho
+    obtain ⟨v, e1, d, hd, hs⟩ := h2 o ho
+    rw [e1, hB d (List.mem_of_mem_take hd) o v hs]
+  have hl : l ≤ B.length := by
+    cases l with
+    | zero => exact Nat.zero_le _
+    | succ n =>
+      have hn := hbyte n (Nat.lt_succ_self n)
+      apply Classical.byContradiction
+      intro hh
+      have e1 : B[n]? = none := by rw [List.getElem?_eq_none_iff]; omega
+      have e2 : b[n]? = some b[n] := List.getElem?_eq_getElem (by omega)
+      rw [e1, e2] at hn
+      cases hn
+  refine ⟨hl, ?_⟩
+  apply List.ext_getElem?
+  intro o
+  rw [List.getElem?_take, List.getElem?_take]
+  by_cases ho : o < l
+  · rw [if_pos ho, if_pos ho]; exact hbyte o ho
+  · rw [if_neg ho, if_neg ho]
+
+set_option maxRecDepth 100000 in
+/-- FORMER WITNESS (f), now the fixed behaviour (11109ea; `srcv2 0 256 9 256 0.1.3,1.0.0,1.0.3`): block 0 of 128 bytes
+(Size1 256), then "block 1 of 16 bytes", then block 1 of 128 bytes.  Before the fix the 16-byte block was recorded as
+block 1 in 128-byte units, the real block 1 was then a duplicate (not stored), and 256 bytes — 128 of them never
+written — were delivered; now the ranges are rescaled ([0,0] → [0,7]) and the body arrives intact -/
+example :
+    let body : Bytes := (List.range 256).map (fun i => UInt8.ofNat i)
+    let ds : List Dgram := [⟨0, 1, 3, slice body 3 0, some 256⟩, ⟨1, 0, 0, slice body 0 1, some 256⟩, ⟨1, 0, 3, slice body 3 1, some 256⟩]
+    runSrcv 4 0xEE 0 none ds = [.cont, .cont, .deliver body 256] ∧
+    ((srcvStep 4 0xEE 0 (srcvStep 4 0xEE 0 none 0 1 3 (slice body 3 0) (some 256)).1 1 0 0 (slice body 0 1) (some 256)).1.map
+      fun s => (s.recv, s.szx)) = some ([(0, 7)], 0) := by decide
+
+set_option maxRecDepth 100000 in
+/-- FORMER WITNESS (g), now the fixed behaviour (cb35487; `srcv 0 32 189 32 0:1,1:0:4`): two requests — block 0 (16 bytes,
+More, Size1 32) and block 1 with 4 bytes, no More — used to hand 32 bytes, 12 of them never written, to the request
+handler; now the short block that does not reach the announced total is answered by 4.08 and the state is dropped -/
+example :
+    let body : Bytes := (List.range 32).map (fun i => UInt8.ofNat i)
+    runSrcv 4 0xEE 0 none [⟨0, 1, 0, slice body 0 0, some 32⟩, ⟨1, 0, 0, (slice body 0 1).take 4, some 32⟩] = [.cont, .fail] ∧
+    runSrcv 4 0xEE 0 none [⟨0, 1, 0, slice body 0 0, none⟩, ⟨1, 0, 0, (slice body 0 1).take 4, none⟩] =
+      [.cont, .deliver (body.take 20) 20] := by decide
+
+/-- FORMER DEFECT (h) (8abfc44; `srcv 0 40 1 4294967295 0:1,1:0:16` delivered a 4294967295-byte body): with Size1 = 2^32-1
+and 16-byte blocks the truncated count was 0 blocks, the count used now is 2^28 -/
+example : (4294967295 + 16 - 1) % 2 ^ 32 / 16 = 0 ∧ totalBlocks 4294967295 16 = 268435456 := by decide
 
 
 /-! ## Layer B, client side: the Block2 receive path (coap_handle_response_get_block), both delivery modes
